@@ -31,6 +31,7 @@ package api
 //@   witness nothing = 0
 //@   replay api_panicking_slot for passed-is-counted-after-contained-panic
 //@   replay api_args_alias for args-not-shared
+//@   replay api_entry_carries_request for entry-carries-request
 //@   ensures[entry-carries-request] e != nil && sc != nil ==> fresh(e) && e.ctx != nil && e.ctx.entry == e && e.sc == sc && e.ctx.Input.BatchCount == options.batchCount && e.ctx.Resource != nil && e.ctx.Resource.name == resource && e.ctx.Resource.flowType == options.entryType
 
 // user options only write the options object they are applied to (and append to its argument list)
